@@ -2,7 +2,11 @@
 
 Decides (structure): bit-exact LAYOUT of every codec against the clause-9 tables, writer<->reader
 agreement, two's-complement handling of signed fields, enumeration code points, mobility flag position,
-zero reserved fields and PL provenance at origination, header order in every emitted packet.
+zero reserved fields and provenance of NH, HT/HST, TC, MHL, flags and PL at origination (each from the request /
+MIB as clause 10.3 prescribes), header order and operand grammar of every emitted packet (Basic || Common || Extended
+[|| 4 media-dependent octets for SHB] || exactly one payload: the request data at origination, the received residual
+when forwarding, the secured packet when signed), with packets that are handed on pre-assembled (Timer arguments,
+parameters) followed to the site that assembles them.
 Does not decide: equality of whole packets with a reference encoder for every request (value level).
 """
 from __future__ import annotations
